@@ -228,6 +228,80 @@ example :
     parsePair "%6b=%76" = some ("k", "v") ∧ parsePair "k=v=w" = some ("k", "v=w") ∧
     parsePieces ["q=books", "ref=100%zz", "%zz=1", "k=v"] = [("q", "books"), ("k", "v")] := by decide
 
+/-! ### quota system flows: is folding by `Filter.ToComparable` sound? -/
+
+/-- Two filters that agree on the parts `ToComparable` looks at — same URL parts, same methods, header pairs,
+    query pairs and status codes up to ORDER — accept exactly the same transactions: folding their quotas into
+    one system flow (which keeps one of the two filters) is sound. -/
+theorem same_key_same_acceptance (f g : Flow) (h : SameKey f g) (t : Txn) : applies f t = applies g t := by
+  rw [applies_eq, applies_eq, h.parts, sameKey_filterOk h]
+
+/-- Filters with the same key — same raw URL, same sorted methods / header items / query items / status codes —
+    whose query parameters all carry a value agree up to order: they are `SameKey` (given that equal URL texts
+    split into equal parts, which is what the front end does), hence accept the same transactions. -/
+theorem same_compKey_same_acceptance (f g : Flow) (hk : compKey f = compKey g)
+    (hparts : f.url = g.url → f.parts = g.parts)
+    (hvf : ∀ kv ∈ f.query, kv.2 ≠ none) (hvg : ∀ kv ∈ g.query, kv.2 ≠ none) (t : Txn) :
+    applies f t = applies g t := by
+  have hq : f.query.Perm g.query := by
+    have hm : (f.query.map fun kv => (kv.1, kv.2.getD "")).Perm (g.query.map fun kv => (kv.1, kv.2.getD "")) :=
+      perm_of_sortBy_eq (congrArg CompKey.query hk)
+    have hf : f.query = (f.query.map fun kv => (kv.1, kv.2.getD "")).map fun p => (p.1, some p.2) := by
+      rw [List.map_map]
+      conv => lhs; rw [← List.map_id f.query]
+      apply List.map_congr_left
+      intro kv hkv
+      obtain ⟨k, v⟩ := kv
+      cases v with
+      | none => exact absurd rfl (hvf _ hkv)
+      | some v => rfl
+    have hg : g.query = (g.query.map fun kv => (kv.1, kv.2.getD "")).map fun p => (p.1, some p.2) := by
+      rw [List.map_map]
+      conv => lhs; rw [← List.map_id g.query]
+      apply List.map_congr_left
+      intro kv hkv
+      obtain ⟨k, v⟩ := kv
+      cases v with
+      | none => exact absurd rfl (hvg _ hkv)
+      | some v => rfl
+    rw [hf, hg]
+    exact hm.map _
+  exact same_key_same_acceptance f g
+    ⟨hparts (congrArg CompKey.url hk), perm_of_sortBy_eq (congrArg CompKey.method hk),
+     perm_of_sortBy_eq (congrArg CompKey.headers hk), hq, perm_of_sortBy_eq (congrArg CompKey.status hk)⟩ t
+
+/-- quota ids run for `t` (`none`: a load error) -/
+def runOf (qs : List Flow) (t : Txn) : Option (List String) :=
+  match quotasRun qs t with
+  | .ok l => some l
+  | .error _ => none
+
+def qOn (name : String) (ms : List String) : Flow :=
+  { plain name "a.com/x" (hostACom ++ [seg "x"]) with kind := .sysStart, methods := ms }
+
+def fQk : Flow := { plain "qK" "a.com/x" (hostACom ++ [seg "x"]) with kind := .sysStart, query := [("k", none)] }
+def fQe : Flow := { plain "qE" "a.com/x" (hostACom ++ [seg "x"]) with kind := .sysStart, query := [("k", some "")] }
+
+/-- The key is COARSER than the filter in one respect (besides separators inside tokens): a query parameter
+    required without a value and one required with the empty value both render as `k=`, yet the first accepts
+    `?k=v` and the second does not — two such quotas on one URL are folded and the later one runs by the filter
+    of the first. -/
+theorem key_collapses_valueless_and_empty_value :
+    compKey fQk = compKey fQe ∧
+    applies fQk (req "GET" urlX [("k", "v")]) = true ∧ applies fQe (req "GET" urlX [("k", "v")]) = false ∧
+    runOf [fQk, fQe] (req "GET" urlX [("k", "v")]) = some ["qK", "qE", "qK", "qE"] := by decide
+
+/-- non-vacuity / regression (seed C03-s11): GET and POST limits on one URL get different keys, a reordered
+    method list the same key; every quota runs exactly for the methods its own filter accepts. -/
+example :
+    compKey (qOn "qG" ["GET"]) ≠ compKey (qOn "qP" ["POST"]) ∧
+    compKey (qOn "qB" ["GET", "POST"]) = compKey (qOn "qC" ["POST", "GET"]) ∧
+    (groupQuotas [qOn "qG" ["GET"], qOn "qP" ["POST"], qOn "qB" ["GET", "POST"], qOn "qC" ["POST", "GET"]]).map
+      (·.members) = [["qG"], ["qP"], ["qB", "qC"]] ∧
+    runOf [qOn "qG" ["GET"], qOn "qP" ["POST"]] (req "GET" urlX) = some ["qG", "qG"] ∧
+    runOf [qOn "qG" ["GET"], qOn "qP" ["POST"]] (req "POST" urlX) = some ["qP", "qP"] ∧
+    runOf [qOn "qG" ["GET"], qOn "qP" ["POST"]] (req "DELETE" urlX) = some [] := by decide
+
 /-! ### the open class: F03e (remaining half) -/
 
 /-- F03e.  `a.com/x` and `a.com.x` share a trie node (children are keyed by value only); the later flow
